@@ -77,7 +77,9 @@ theorem normalised_burn_state_lookup (rem : DecCoins) (a : Distr.Account) :
   · simp
   · unfold Distr.findAccountState; simp
 
-/-- full statement (target) -/
+/-- full statement as first written down (round 0); its bare hypotheses do not exclude ill-formed
+    coin lists and states — with the invariant the block maintains (`FullInv`) it is proved below as
+    `distributor_block_completes` / `distributor_never_halts` -/
 def no_halt_full : Prop :=
   ∀ (e : Distr.Env) (subs : List Distr.SubD) (w : Distr.World) (faults : List Nat),
     Distr.paramsValid e subs = true → Distr.nonNegativeStates w.states = true → Distr.stateSumMatchesBalance e w = true →
